@@ -78,7 +78,7 @@ MUTANTS = [
  ("c06-name-class", "C06", "C06.R2", "css/parser/tokenizer.go", "abcdefghijklmnopqrstuvwxyz-_0123456789ABCDEFGHIJKLMNOPQRSTUVWXYZ", "abcdefghijklmnopqrstuvwxyz_0123456789ABCDEFGHIJKLMNOPQRSTUVWXYZ"),
  ("c06-number-re", "C06", "C06.R3", "css/parser/tokenizer.go", "([eE][+-]?[0-9]+)?`)", "([eE][+-]?[0-9]*)?`)"),
  ("c14-swapped-args", "C14", "C14.R6", "html/document/document.go", "rectangleAabb(*matrix, posX, posY, width, height)", "rectangleAabb(*matrix, posX, posY, height, width)"),
- ("c09-colspan-zero", "C09", "C09.R5", "html/boxes/boxes_tree.go", 'Get("colspan"), 1)', 'Get("colspan"), 0)'),
+ ("c09-colspan-zero", "C09", "C09.R5", "html/boxes/boxes_tree.go", 'Get("colspan"), 1, maxColspan)', 'Get("colspan"), 0, maxColspan)'),
  ("c10-flex-border", "C10", "C10.R5", "html/layout/flex.go", "child.BorderTopWidth.V() - child.BorderBottomWidth.V()", "child.BorderTopWidth.V() - child.BorderTopWidth.V()"),
  ("c19-extends-key", "C19", "C19.R3", "css/counters/counters.go", "\t\t\tpreviousTypes.Add(system)\n\n\t\t\textends, system = \"\", \"symbolic\"", "\t\t\tpreviousTypes.Add(counterName)\n\n\t\t\textends, system = \"\", \"symbolic\""),
  ("c19-numeric-one", "C19", "C19.R1", "css/counters/counters.go", "\tif len(symbols) < 2 {\n\t\treturn \"\", false\n\t}\n\tvar reversedParts []string", "\tif len(symbols) < 1 {\n\t\treturn \"\", false\n\t}\n\tvar reversedParts []string"),
@@ -107,6 +107,7 @@ MUTANTS = [
  ("c02-relative-key", "C02", "C02.R1", "html/layout/tables.go", "indexRow := i + skip", "indexRow := i"),
  ("c02-earlier-line", "C02", "C02.R3", "html/layout/blocks.go", "resumeAt = tree.ResumeStack{0: newChildren[len(newChildren)-1].(*bo.LineBox).ResumeAt}", "resumeAt = tree.ResumeStack{0: children[index].(*bo.LineBox).ResumeAt}"),
  ("c02-dropped-resume", "C02", "C02.R2", "html/layout/flex.go", "\t\t\t\tchildResumeAt := tmp.resumeAt\n\t\t\t\tif newChild == nil {\n\t\t\t\t\tif resumeAt != nil {", "\t\t\t\tvar childResumeAt tree.ResumeStack\n\t\t\t\t_ = tmp\n\t\t\t\tif newChild == nil {\n\t\t\t\t\tif resumeAt != nil {"),
+ ("c01-colspan-unbounded", "C01", "C01.R10", "html/boxes/boxes_tree.go", 'Get("colspan"), 1, maxColspan)', 'Get("colspan"), 1, 1<<62)'),
  # behaviour-preserving edits: must stay silent
  ("ok-key-commuted", "C02", "", "html/layout/tables.go", "indexRow := i + skip", "indexRow := skip + i"),
  ("ok-separate-negated", "C13", "", "html/layout/tables.go", "\tif table.Style.GetBorderCollapse() == \"separate\" {\n\t\tborderSpacingX", "\tif table.Style.GetBorderCollapse() != \"collapse\" {\n\t\tborderSpacingX"),
